@@ -159,7 +159,8 @@ class Polygon(Shape2D):
         if normal is None:
             self._normal = computed_normal
         else:
-            norm_normal = np.asarray(normal, dtype=np.float64)
+            # A copy: the caller's array must not be normalized in place.
+            norm_normal = np.array(normal, dtype=np.float64)
             norm_normal /= np.linalg.norm(normal)
 
             if not np.isclose(np.abs(np.dot(computed_normal, norm_normal)), 1):
@@ -824,7 +825,8 @@ class Polygon(Shape2D):
         self.centroid = np.array([0, 0, 0])
         data = self.to_json(["vertices", "centroid", "area", "inertia_tensor"])
         hoomd_dict = _map_dict_keys(data, key_mapping=_hoomd_dict_mapping)
-        hoomd_dict = {**hoomd_dict, **{"vertices": self.vertices[:, :2]}}
+        # Copy: the stored vertices are moved back below.
+        hoomd_dict = {**hoomd_dict, **{"vertices": self.vertices[:, :2].copy()}}
         hoomd_dict["sweep_radius"] = 0.0
 
         self.centroid = old_centroid
